@@ -122,6 +122,9 @@ def intToI64 (src : BitVec 64) : Res (BitVec 64) :=
   if (src &&& 1#64) == 0#64 then .fast (src.sshiftRight 1)
   else .slow ⟨"CPyLong_AsInt64", [src ^^^ 1#64], false⟩
 
+/-- the value returned together with a pending exception (`RPrimitive.c_undefined`: -113 / 239) -/
+def errValue (w : Nat) (signed : Bool) : BitVec w := if signed then BitVec.ofInt w (-113) else BitVec.ofNat w 239
+
 /-- … for a narrower target of `w` bits (`i32`, `i16`, `u8`): the range check is done on the *tagged* word
     (`src < upper << 1`, `src >= lower << 1`, signed comparisons), then `(src >> 1)` is truncated; a long
     operand or an out-of-range short one raises (`CPyInt32_Overflow` …: `ValueError`). -/
@@ -132,9 +135,9 @@ def intToNarrow (w : Nat) (signed : Bool) (src : BitVec 64) : Res (BitVec w) :=
     if BitVec.slt src (BitVec.ofInt 64 (2 * upper)) then
       if BitVec.sle (BitVec.ofInt 64 (2 * lower)) src then
         .fast (BitVec.truncate w (src.sshiftRight 1))
-      else .raise "ValueError" 0#w
-    else .raise "ValueError" 0#w
-  else .raise "ValueError" 0#w
+      else .raise "ValueError" (errValue w signed)
+    else .raise "ValueError" (errValue w signed)
+  else .raise "ValueError" (errValue w signed)
 
 /-- `coerce_fixed_width_to_int` for `i64`: `MIN_SHORT_INT ≤ src ≤ MAX_SHORT_INT` → `src << 1`, else
     `CPyTagged_FromInt64(src)` (boxes). -/
